@@ -92,6 +92,11 @@ C12NBestOK == /\ Clause("nbest-non-increasing", NonIncreasing([i \in DOMAIN Ev.i
                            IN /\ Clause("nbest-hyp-is-path-of-current-lattice",
                                         \A i \in DOMAIN Ev.items : HypIsLatticePath(LL, Ev.items[i].hyp))
                               /\ Clause("nbest-of-a-lattice-is-not-empty", Ev.items # <<>>)
+                              /\ ("postfirst" \in DOMAIN Ev.after) =>
+                                    LET P == Ev.after.postfirst
+                                        Eps == 4 * (Len(Ev.after.links) + 2)
+                                    IN /\ Clause("posterior-right-after-nbest-le-1", P.best <= Eps /\ P.maxlink <= Eps)
+                                       /\ Clause("posterior-right-after-nbest-forward-equals-backward", Abs(P.norm - P.bwd) <= Eps)
                               /\ C12LatOK(LL, Ev.after, "after-nbest:")
                  ELSE /\ Clause("nbest-hyp-is-lattice-path",
                                 lat.ok => \A i \in DOMAIN Ev.items : HypIsLatticePath(lat.L, Ev.items[i].hyp))
